@@ -145,6 +145,7 @@ type Config struct {
 	BaseMs             int      `json:"base_ms"`                  // election timeout on view 0 for the real timer
 	FailCommitAt       []uint64 `json:"fail_commit_at,omitempty"` // heights whose commit callback returns an error
 	CommitteeFailFirst int      `json:"committee_fail_first,omitempty"`
+	AbsentAt           uint64   `json:"absent_at,omitempty"` // the node is not in the committee of this height (it moves on by sync only)
 }
 
 type Event struct {
@@ -212,13 +213,17 @@ func (h *H) committee(height primitives.BlockHeight) []interfaces.CommitteeMembe
 	if height > 0 {
 		shift = int((uint64(height) - 1) * uint64(h.Cfg.Rot) % uint64(n))
 	}
+	out = out[:0]
 	for i := 0; i < n; i++ {
 		idx := (i + shift) % n
+		if h.Cfg.AbsentAt != 0 && uint64(height) == h.Cfg.AbsentAt && idx == h.Cfg.Me {
+			continue
+		}
 		w := uint64(1)
 		if idx < len(h.Cfg.Weights) {
 			w = h.Cfg.Weights[idx]
 		}
-		out[i] = interfaces.CommitteeMember{Id: h.IDs[idx], Weight: primitives.MemberWeight(w)}
+		out = append(out, interfaces.CommitteeMember{Id: h.IDs[idx], Weight: primitives.MemberWeight(w)})
 	}
 	return out
 }
